@@ -1286,43 +1286,58 @@ func TestKnownBlockLimit(t *testing.T) {
 		}
 		defer ta.Close()
 		defer tb.Close()
-		req := &gateway.RPCSendV2Blocks{History: []types.BlockID{{1}}, Max: 1}
-		var readErr error
-		ea, eb = runPair(
-			func() error {
-				st, err := ta.DialStream()
-				if err != nil {
-					return err
-				}
-				defer st.Close()
-				if err := st.WriteID(req); err != nil {
-					return err
-				} else if err := st.WriteRequest(req); err != nil {
-					return err
-				}
-				readErr = st.ReadResponse(req)
-				ta.Close() // releases the responder if it is still writing
-				return nil
-			},
-			func() error {
-				st, err := tb.AcceptStream()
-				if err != nil {
-					return err
-				}
-				defer st.Close()
-				if _, err := st.ReadID(); err != nil {
-					return err
-				}
-				var got gateway.RPCSendV2Blocks
-				if err := st.ReadRequest(&got); err != nil {
-					return err
-				}
-				got.Blocks = []types.Block{b}
-				st.WriteResponse(&got) // may fail once the reader has given up
-				return nil
-			})
-		if ea != nil || eb != nil {
-			return fmt.Errorf("probe RPC could not run: %v / %v", ea, eb)
+		// sendBlock fetches blk with SendV2Blocks(Max=1): a -> b request, b -> a response
+		sendBlock := func(blk types.Block, last bool) (req *gateway.RPCSendV2Blocks, readErr, err error) {
+			req = &gateway.RPCSendV2Blocks{History: []types.BlockID{{1}}, Max: 1}
+			ea, eb := runPair(
+				func() error {
+					st, err := ta.DialStream()
+					if err != nil {
+						return err
+					}
+					defer st.Close()
+					if err := st.WriteID(req); err != nil {
+						return err
+					} else if err := st.WriteRequest(req); err != nil {
+						return err
+					}
+					if readErr = st.ReadResponse(req); readErr != nil && last {
+						ta.Close() // releases the responder if it is still writing
+					}
+					return nil
+				},
+				func() error {
+					st, err := tb.AcceptStream()
+					if err != nil {
+						return err
+					}
+					defer st.Close()
+					if _, err := st.ReadID(); err != nil {
+						return err
+					}
+					var got gateway.RPCSendV2Blocks
+					if err := st.ReadRequest(&got); err != nil {
+						return err
+					}
+					got.Blocks = []types.Block{blk}
+					st.WriteResponse(&got) // may fail once the reader has given up
+					return nil
+				})
+			if ea != nil || eb != nil {
+				err = fmt.Errorf("probe RPC could not run: %v / %v", ea, eb)
+			}
+			return
+		}
+		// self-check: the same construction over a shallower accumulator (3.9 MB) goes through
+		small := deepInputBlock(9000, 20)
+		if req, readErr, err := sendBlock(small, false); err != nil || readErr != nil {
+			return fmt.Errorf("probe self-check failed (block over a height-20 tree, %d bytes): %v %v", encLen(types.V2Block(small)), readErr, err)
+		} else if ok, p := normEqual([]types.Block{small}, req.Blocks); !ok {
+			return fmt.Errorf("probe self-check: block differs at %s", p)
+		}
+		req, readErr, err := sendBlock(b, true)
+		if err != nil {
+			return err
 		}
 		if readErr != nil {
 			return fmt.Errorf("SendV2Blocks(Max=1) response carrying one block of weight %d (%d bytes encoded): ReadResponse: %v",
